@@ -141,7 +141,7 @@ def grep_forbidden():
     return hits
 
 
-def run_chunk(prop, seed, n_ops, workdir, replay=None, driver_args=()):
+def run_chunk(prop, seed, n_ops, workdir, replay=None, driver_args=(), rtol=1e-12):
     os.makedirs(workdir, exist_ok=True)
     cmd = [PY, os.path.join(HERE, "runner.py"), prop, str(seed), str(n_ops), workdir]
     if replay:
@@ -164,7 +164,7 @@ def run_chunk(prop, seed, n_ops, workdir, replay=None, driver_args=()):
         fh.write("\n".join(model) + "\n")
     res["driver_rc"] = p.returncode
     res["report"] = json.load(open(os.path.join(workdir, "report.json"), encoding="utf-8"))
-    compared, unmodelled, dis, stopped = compare_streams(ops, impl, model)
+    compared, unmodelled, dis, stopped = compare_streams(ops, impl, model, rtol)
     res.update({"compared": compared, "unmodelled": unmodelled, "disagreement": dis,
                 "stopped_at": stopped, "n_ops": len(ops)})
     return res
@@ -235,6 +235,8 @@ def main():
         cfg = dict(getattr(mod, "THOROUGH", {"chunks": 16, "ops": 4000}))
     theorems = list(getattr(mod, "THEOREMS", []))
     targets = list(getattr(mod, "LEAN_TARGETS", ["Props." + prop, "Obligations." + prop]))
+    if tier == "thorough":
+        targets += list(getattr(mod, "THOROUGH_TARGETS", []))
     evidence_path = os.path.join(VERIF, "evidence", "%s.json" % prop)
     os.makedirs(os.path.dirname(evidence_path), exist_ok=True)
     workroot = os.path.join(VERIF, "work", "%s-%d" % (prop, os.getpid()))
@@ -306,7 +308,8 @@ def main():
                 jobs.append((seed * 1000 + c, cfg["ops"] * (mult if c < 4 else 1),
                              os.path.join(workroot, "chunk%d" % c), None))
         with ThreadPoolExecutor(max_workers=min(16, len(jobs) or 1)) as ex:
-            futs = [ex.submit(run_chunk, prop, s, n, wd, rp, driver_args) for s, n, wd, rp in jobs]
+            rtol = float(getattr(mod, "RTOL", 1e-12))
+            futs = [ex.submit(run_chunk, prop, s, n, wd, rp, driver_args, rtol) for s, n, wd, rp in jobs]
             chunks = [f.result() for f in futs]
     elif hasattr(mod, "generate") and not driver_ok:
         problems.append(("driver", "model driver could not be built"))
